@@ -82,16 +82,17 @@ def _matches(rows, ref):
 
 def _only_wrap_mismatches(rows, ref, nlat, nlon):
     """Signature of WRAP: shares right, and every wrong label is the last grid value reported
-    for a piece lying on the first grid line (admissible label set == (0,))."""
+    for a piece that lies on the first grid line of that axis.
+    ref entries: (lat labels, lon labels, share, (on first lat line, on first lon line))."""
     if len(rows) != len(ref):
         return False
     seen = False
     for r, e in zip(rows, ref):
         if abs(r[2] - e[2]) > R.EXACT_TOL:
             return False
-        for got, adm, n in ((r[0], e[0], nlat), (r[1], e[1], nlon)):
+        for got, adm, n, on_first in ((r[0], e[0], nlat, e[3][0]), (r[1], e[1], nlon, e[3][1])):
             if got not in adm:
-                if adm == (0,) and got == n - 1:
+                if on_first and got == n - 1:
                     seen = True
                 else:
                     return False
@@ -114,6 +115,8 @@ def attribution(ev):
         return vio, judged
     if np.any(np.diff(tags) < 0):
         vio.append(V('path-order', f'pieces are not in segment order: {tags.tolist()}'))
+    if vio:
+        return vio, judged  # pieces cannot be grouped by segment: nothing below would be meaningful
     vals = R.VALS[p['vals']][0]
     for k, s in enumerate(segs):
         ex = s['exact']
@@ -144,7 +147,7 @@ def attribution(ev):
             bad = [c for c in cells if not (c[0] in e['lat'] and c[1] in e['lon'])]
             if bad:
                 f = None
-                if all((c[0] in e['lat'] or (e['lat'] == (0,) and c[0] == nlat - 1)) and (c[1] in e['lon'] or (e['lon'] == (0,) and c[1] == nlon - 1)) for c in bad):
+                if all((c[0] in e['lat'] or (e['first'][0] and c[0] == nlat - 1)) and (c[1] in e['lon'] or (e['first'][1] and c[1] == nlon - 1)) for c in bad):
                     f = WRAP
                 vio.append(V('cell-share', f'{where}: repeated point lies in cell(s) lat{e["lat"]} lon{e["lon"]}, reported {cells}', finding=f))
             continue
@@ -162,7 +165,7 @@ def attribution(ev):
         tot = sum(sh for _, sh in pos) or 1.0
         rows = [(c[0], c[1], sh / tot) for c, sh in pos]
         rtot = sum(x['raw'] for x in ex['pieces'])
-        ref = [(x['lat'], x['lon'], x['raw'] / rtot) for x in ex['pieces']]
+        ref = [(x['lat'], x['lon'], x['raw'] / rtot, x['first']) for x in ex['pieces']]
         neg = [sh for sh in shares if sh < -R.EXACT_TOL]
         if _matches(rows, ref) and not neg and abs(tot - 1.0) <= R.DENSE_TOL:
             continue
